@@ -21,6 +21,7 @@ From MZ.spec Require Zlib.
 From MZ.spec Require Import Adler.
 From MZ.spec Require DeflateSpec.
 From MZ.proofs Require Import InflateBasic InflateZlib StoredSpec InflateStoredChunks InflateStoredTotal InflateStoredReject.
+From MZ.proofs Require InflateStoredStarved.
 Import ListNotations.
 Local Open Scope N_scope.
 
@@ -82,6 +83,32 @@ Proof.
     destruct H4 as [H4|[[H4 _]|(_ & _ & H4)]]; [right; exact H4|left; exact H4|].
     exfalso. unfold stream in Hlen. cbn [app length] in Hlen. rewrite !app_length in *. cbn [length] in Hlen. lia.
 Qed.
+
+(* ... and "cannot-make-progress when it is not [announced]": the same truncated stream (the cut anywhere inside it: what
+   is withheld is longer than the bytes following the stream) offered in one call WITHOUT the has-more-input flag:
+   FailedCannotMakeProgress with everything offered consumed - or HasMoreOutput with the granted window full - never
+   Failed, never Done; what was written is a prefix of the payload *)
+Theorem C04_truncated_without_more_input_flag_partial :
+  forall flags zl cmf flg A chunks last extra input fut o budget,
+  has flags F_ZLIB = zl -> has flags F_STOPBB = false -> has flags F_NONWRAP = true -> has flags F_MORE = false ->
+  cmf < 256 -> flg < 256 -> Zlib.valid_header (Z.of_N cmf) (Z.of_N flg) = true -> A < 2 ^ 32 ->
+  chunks_ok chunks -> bytes_ok last -> N.of_nat (length last) <= 65535 ->
+  let data := concat chunks ++ last in
+  let stream := (if zl then [cmf; flg] else []) ++ stored_stream chunks last ++ (if zl then be32 A else []) in
+  input ++ fut = stream ++ extra -> N.of_nat (length extra) < N.of_nat (length fut) ->
+  alen o <= USIZE_MAX -> N.of_nat (length input) < 2 ^ 57 ->
+  exists res, decompress dec_default input o 0 budget flags = Ret res /\
+    ((cr_status res = FailedCannotMakeProgress /\ cr_in res = N.of_nat (length input)) \/
+     (cr_status res = HasMoreOutput /\ cr_out res = N.min (N.min budget USIZE_MAX) (alen o))) /\
+    aget_list (cr_buf res) 0 (cr_out res) = firstn (N.to_nat (cr_out res)) data.
+Proof. exact InflateStoredStarved.truncated_stored_stream_without_more. Qed.
+
+Example C04_truncated_without_more :
+  match decompress dec_default [120; 1; 1; 3; 0; 252; 255; 7; 8] (amake 8 0) 0 8 5 with
+  | Ret res => cr_status res = FailedCannotMakeProgress /\ cr_in res = 9 /\ cr_out res = 2
+  | _ => False
+  end.
+Proof. vm_compute. repeat split; reflexivity. Qed.
 
 Theorem C04_reserved_block_type_never_accepted_partial :
   forall flags zl cmf flg chunks hb junk sched later o,
